@@ -1,6 +1,8 @@
 import FqModel.JqEnv
 import FqModel.Gen.Overrides
 import Proofs.C07
+import FqModel.JsonStr
+import Proofs.C07Json
 /-!
   C07 — standard jq programs behave in fq as in the reference jq engine   (claimed PARTIAL, category `other`)
 
@@ -22,11 +24,14 @@ import Proofs.C07
                              not redefined;
         `gen_skeleton_ok`    in the regenerated environment slice every guarded override satisfies the
                              side conditions of `override_transparent` (positions, lookups);
-        `gen_quote_class_ok` `_re_quote_meta`'s class contains every RE2 metacharacter, only punctuation.
+        `gen_quote_class_ok` `_re_quote_meta`'s class contains every RE2 metacharacter, only punctuation;
+        `gen_encoders_equal` the string-escaping table and loop of fq's JSON encoder are the reference's;
+        `gen_encoder_table_ok` that table escapes every byte to a JSON text meaning that byte.
   (B) MODEL THEOREMS, for all environments / values / arguments / fuel:
         `guarded_transparent`, `guarded_transparent_evals`, `orig_captures_builtin`, `orig_call_is_builtin`,
         `override_transparent`, `gen_overrides_transparent`, `reQuoteMeta_literal`,
-        `gen_reQuoteMeta_literal`.
+        `gen_reQuoteMeta_literal`, `escape_roundtrip`, `gen_tojson_string_equals_reference`,
+        `gen_tojson_string_roundtrip`, `gen_tojson_string_injective`.
   NOT proved (the PARTIAL part): that gojq's compiler/VM implement the modelled scoping, and everything
   that is not the override layer (regex engine, number formatting, the re-implemented functions' bodies:
   split/2 via splits, tojson's encoder, fromjson via decode, debug/stderr via fq's stdio) — differential only.
@@ -266,6 +271,55 @@ theorem gen_reQuoteMeta_literal (s : List Nat) : readLiteral (quoteMeta Gen.Over
 theorem reQuoteMeta_old_class_witness :
     readLiteral (quoteMeta [46, 43, 42, 63, 40, 41, 124, 91, 93, 123, 125, 94, 36, 41] [92, 100]) ≠ some [92, 100] := by
   decide
+
+/-! ## tojson / @json / display of strings: the escaping of fq's encoder is the reference's, and it is right
+
+  fq replaces `tojson` outright (JqEnv.reimplemented) by its own encoder, internal/colorjson (a fork of gojq's
+  encoder.go). For STRINGS — the part of the encoder with a decision table — the two tables are read off the two
+  ASTs on every run (FqModel.Gen.Encoder.fq / .gojq: pass-through range and exclusions, every `switch` case with the
+  literal it writes, the default `\u00XX`, every `if` in the non-ASCII part, and the printed loop). -/
+section Encoder
+open FqModel.JsonStr FqModel.Gen.Encoder Proofs.C07Json
+
+/-- fq's encodeString and gojq's are the same table and the same loop text: an extra escape in one of them (say
+    U+2028/U+2029 as `\u2028`, or `<` as `\u003c`), a changed case, a different pass-through range — each
+    breaks this. -/
+theorem gen_encoders_equal : Gen.Encoder.fq = Gen.Encoder.gojq := by decide
+
+/-- hence, for every string (any sequence of ASCII bytes, valid runes and invalid bytes), fq's `tojson` text is
+    the reference's -/
+theorem gen_tojson_string_equals_reference (s : List Ch) : encode Gen.Encoder.fq s = encode Gen.Encoder.gojq s := by
+  rw [gen_encoders_equal]
+
+/-- the escaped text is a well-formed JSON string body that means the original string (an invalid byte means
+    U+FFFD), for every table that passes the decidable check `tableOk` -/
+theorem escape_roundtrip (t : Esc) (ht : tableOk t = true) (s : List Ch) (hwf : ∀ ch ∈ s, Ch.wf ch) :
+    unescape (encode t s) = some (s.map Ch.value) :=
+  encode_roundtrip t ht s hwf
+
+theorem gen_encoder_table_ok : tableOk Gen.Encoder.fq = true := by decide
+
+/-- `tojson | fromjson` is the identity on strings, as far as escaping goes, for the encoder in the source now -/
+theorem gen_tojson_string_roundtrip (s : List Ch) (hwf : ∀ ch ∈ s, Ch.wf ch) :
+    unescape (encode Gen.Encoder.fq s) = some (s.map Ch.value) :=
+  escape_roundtrip _ gen_encoder_table_ok s hwf
+
+/-- escaping is injective on well-formed strings without invalid bytes: different strings, different texts -/
+theorem gen_tojson_string_injective (s₁ s₂ : List Ch) (h₁ : ∀ ch ∈ s₁, Ch.wf ch) (h₂ : ∀ ch ∈ s₂, Ch.wf ch)
+    (h : encode Gen.Encoder.fq s₁ = encode Gen.Encoder.fq s₂) : s₁.map Ch.value = s₂.map Ch.value := by
+  have e₁ := gen_tojson_string_roundtrip s₁ h₁
+  have e₂ := gen_tojson_string_roundtrip s₂ h₂
+  rw [h] at e₁
+  exact Option.some.inj (e₁.symm.trans e₂)
+
+/-- non-vacuity: `"a\"\n\u0001é` + an invalid byte -/
+example : encode Gen.Encoder.fq [.ascii 97, .ascii 34, .ascii 10, .ascii 1, .rune 233, .bad]
+    = [97, 92, 34, 92, 110, 92, 117, 48, 48, 48, 49, 233, 92, 117, 102, 102, 102, 100] := by decide
+/-- a table that escapes U+2028 differently from the reference is a different table (the seeded change
+    S2-C07-1 in miniature): the equality obligation distinguishes it -/
+example : ({ Gen.Encoder.gojq with nonAscii := Gen.Encoder.gojq.nonAscii ++ [("c == '\u2028' || c == '\u2029'", "\\u202")] } : Esc)
+    ≠ Gen.Encoder.gojq := by decide
+end Encoder
 
 /-! ## non-vacuity -/
 
